@@ -373,6 +373,23 @@ def reader_keys(fn: ast.AST, res: KeyResolver) -> Tuple[Set[str], List[str]]:
         else:
             keys.update(r)
 
+    # locals that hold a key name: assigned from `<x>.name` / `<x>.real_name` (possibly folded), whatever they are called
+    name_locals: Set[str] = {'name'}
+    for a in walk_no_nested(fn):
+        if isinstance(a, (ast.Assign, ast.AnnAssign)) and getattr(a, 'value', None) is not None:
+            v = a.value
+            while isinstance(v, ast.Call) and isinstance(v.func, ast.Attribute) and v.func.attr in ('casefold', 'lower', 'strip') and not v.args:
+                v = v.func.value
+            if isinstance(v, ast.Attribute) and v.attr in ('name', 'real_name'):
+                for t in (a.targets if isinstance(a, ast.Assign) else [a.target]):
+                    if isinstance(t, ast.Name):
+                        name_locals.add(t.id)
+
+    def holds_name(x: ast.AST) -> bool:
+        while isinstance(x, ast.Call) and isinstance(x.func, ast.Attribute) and x.func.attr in ('casefold', 'lower') and not x.args:
+            x = x.func.value
+        return (isinstance(x, ast.Name) and x.id in name_locals) or (isinstance(x, ast.Attribute) and x.attr in ('name', 'real_name'))
+
     for n in walk_no_nested(fn):
         if isinstance(n, ast.Subscript) and isinstance(n.ctx, ast.Load):
             sl = n.slice
@@ -389,10 +406,10 @@ def reader_keys(fn: ast.AST, res: KeyResolver) -> Tuple[Set[str], List[str]]:
         elif isinstance(n, ast.Call) and isinstance(n.func, ast.Attribute) and n.func.attr == 'startswith' and n.args \
                 and isinstance(n.args[0], ast.Constant) and isinstance(n.args[0].value, str):
             recv = ast.unparse(n.func.value)
-            if recv.endswith('name') or recv == 'name':
+            if recv.endswith('name') or recv == 'name' or holds_name(n.func.value):
                 keys.add(n.args[0].value + '*')
         elif isinstance(n, ast.Call) and isinstance(n.func, ast.Attribute) and n.func.attr in ('match', 'fullmatch', 'search') and n.args \
-                and (ast.unparse(n.args[-1]).endswith('name') or ast.unparse(n.args[-1]) == 'name'):
+                and (ast.unparse(n.args[-1]).endswith('name') or ast.unparse(n.args[-1]) == 'name' or holds_name(n.args[-1])):
             # key recognised by a regular expression: `_ROW_KEY.match(prop.name)` / `re.match(r'row(\d+)', prop.name)`
             pat = None
             if isinstance(n.func.value, ast.Name) and n.func.value.id != 're':
@@ -417,7 +434,7 @@ def reader_keys(fn: ast.AST, res: KeyResolver) -> Tuple[Set[str], List[str]]:
             l, r = n.left, n.comparators[0]
             def is_name(x: ast.AST) -> bool:
                 s = ast.unparse(x)
-                return s == 'name' or s.endswith('.name') or s.endswith('.real_name')
+                return s == 'name' or s.endswith('.name') or s.endswith('.real_name') or holds_name(x)
             if isinstance(n.ops[0], (ast.Eq, ast.NotEq)):
                 for a, b in ((l, r), (r, l)):
                     if is_name(a) and isinstance(b, ast.Constant) and isinstance(b.value, str):
